@@ -102,10 +102,26 @@ pub fn run() -> Report {
             }
         }
         cases.push(Case { coin: cn, versions: vec![1, 0x7fff_ffff, 1, thr], section: default_sec.clone(), label: "extremes".into() });
+        // the threshold is a comparison of numbers, not a bit pattern: the one-bit neighbourhood of the activation version (each
+        // of its 31 low bits flipped: above it with a section, below it without), every power of two and its successor, and
+        // versions that real chains carry (BIP9 top bits with the chain id, version bits with the AuxPoW flag bit clear)
+        let mut vs: Vec<u32> = (0..31).map(|k| thr ^ (1u32 << k)).collect();
+        vs.extend((0..31).flat_map(|k| [1u32 << k, (1u32 << k) + 1]));
+        vs.extend([0x2000_0000, 0x2000_0100, 0x2001_0000, 0x2062_0000, 0x0062_0004, 0x0001_0201, 0x0062_0202, 0x3fff_ffff, 0x7fff_fe00, 0x7fff_feff]);
+        vs.sort();
+        vs.dedup();
+        for pair in vs.chunks(2) {
+            let mut versions = vec![thr];
+            versions.extend_from_slice(pair);
+            versions.push(thr - 1);
+            cases.push(Case { coin: cn, versions, section: default_sec.clone(), label: "version-neighbourhood".into() });
+        }
         // section-shape product
-        let cbs: Vec<usize> = vec![0, 1, 2];
-        let chs: Vec<usize> = vec![0, 1, 2];
-        for parent_cb in 0..3u8 {
+        // thorough: branch lengths up to and across the one-byte CompactSize limit, and every parent transaction shape
+        let cbs: Vec<usize> = if thorough { vec![0, 1, 2, 3, 5, 11, 32, 33, 0xfc, 0xfd] } else { vec![0, 1, 2] };
+        let chs: Vec<usize> = if thorough { vec![0, 1, 2, 3, 5, 11, 32, 33, 0xfc, 0xfd] } else { vec![0, 1, 2] };
+        let parent_kinds: Vec<u8> = if thorough { vec![0, 1, 2, 6, 7, 8, 9, 10, 11] } else { vec![0, 1, 2] };
+        for parent_cb in parent_kinds {
             for &cb in &cbs {
                 for &ch in &chs {
                     for mask in [0u32, 1, 0xffff_ffff] {
